@@ -51,11 +51,13 @@ Definition nested (k : key) : bool := Nat.ltb 1 (List.length k).
 Definition has_node (f : string) (t : td) : bool :=
   existsb (fun kv => String.eqb (hdk (fst kv)) f && nested (fst kv)) t.
 
-(* base.py:update(src, keys_to_update=ktu): the filter looks at the FIRST component of a key only; below an existing
-   nested node the pruned keys filter exactly; a nested node the destination does not have yet is set as a whole. *)
+(* base.py:update(src, keys_to_update=ktu): a top-level entry is taken when some selected key starts with its name;
+   below a nested node the pruned keys filter exactly -- also when the destination does not have the node yet (it then
+   starts from an empty node; fix of D143).  Only when the node's own name is selected and the destination lacks it is
+   the node set as a whole. *)
 Definition upd_cond (dst : td) (ktu : list key) (k : key) : bool :=
   existsb (fun k' => String.eqb (hdk k') (hdk k)) ktu
-  && (negb (nested k) || negb (has_node (hdk k) dst) || memk k ktu).
+  && (negb (nested k) || memk k ktu || (memk [hdk k] ktu && negb (has_node (hdk k) dst))).
 
 Definition upd_ktu (dst src : td) (ktu : list key) : td :=
   fold_left (fun acc k => match get k src with
@@ -131,15 +133,16 @@ Definition leaf_vals (l : leaf) (args : list term) : list (key * term) :=
 Definition write_all (kvs : list (key * term)) (d : td) : td :=
   fold_left (fun d kv => if is_sink (fst kv) then d else set (fst kv) (snd kv) d) kvs d.
 
-(* _OutKeysSelect.__call__, tensordict call: select of in_keys + out_keys, inplace=True, strict=False *)
-Definition hook (l : leaf) (d : td) : td :=
-  match lsel l with None => d | Some s => select (ins l ++ s) d end.
+(* _write_to_tensordict writes the outputs select_out_keys retained (`_out_key in self.out_keys`); for a TensorDictModule
+   the _OutKeysSelect hook then leaves the tensordict alone (fix of D9 / D141) *)
+Definition sel_vals (l : leaf) (kvs : list (key * term)) : list (key * term) :=
+  match lsel l with None => kvs | Some s => filter (fun kv => memk (fst kv) s) kvs end.
 
 Definition fwd_leaf (l : leaf) (x : td) (o : option td) : outcome :=
   match read_all (ins l) x with
   | None => Raised x o
   | Some args =>
-      let w := fun d => hook l (write_all (leaf_vals l args) d) in
+      let w := fun d => write_all (sel_vals l (leaf_vals l args)) d in
       match o with
       | Some ot => Done x (Some (w ot)) ROut
       | None => match linpl l with
@@ -219,11 +222,11 @@ Definition result_td (oc : outcome) : option td :=
   end.
 
 (* the `dispatch` decorator: keyword / positional tensors -> tensordict of the in_keys provided -> forward ->
-   tuple(out[key] for key in out_keys) *)
+   tuple(out[key] for key in out_keys if key != "_") *)
 Definition dispatch_call (n : node) (provided : list key) : option (list term) :=
   let x := map (fun k => (k, In k)) (filter (fun k => memk k provided) (dedup_last (in_keys n))) in
   match result_td (fwd n x None) with
-  | Some out => read_all (out_keys n) out
+  | Some out => read_all (filter (fun k => negb (is_sink k)) (out_keys n)) out
   | None => None
   end.
 
@@ -290,8 +293,7 @@ Fixpoint select_sub (fuel : nat) (n : node) (I S : option (list key)) {struct fu
               | Some (Some (k2, _)) =>
                   match k2 with
                   | [] => SReject                                            (* "No modules left after selection" *)
-                  | _ => if sdict c && existsb is_seq k2 then SReject        (* zip_strict(keys, modules): D144 *)
-                         else SOk (Seq (default_cfg (sdict c)) k2)
+                  | _ => SOk (Seq (default_cfg (sdict c)) k2)   (* ModuleDict: names kept by position (fix of D144) *)
                   end
               end
           end
